@@ -36,11 +36,12 @@ Proof.
 Qed.
 
 (* ---------- spacingAtLevel (linear.go:85-106) ---------- *)
-Lemma odd_rem level : (Z.rem level 2 =? 1)%Z || (Z.rem level 2 =? -1)%Z = Z.odd level.
+(* level % 2 (truncated remainder) against Z.odd: whatever test the source makes on it computes *)
+Lemma rem2_cases level :
+  (Z.odd level = true /\ (Z.rem level 2 = 1 \/ Z.rem level 2 = -1)%Z) \/ (Z.odd level = false /\ Z.rem level 2 = 0%Z).
 Proof.
-  rewrite Zrem_odd. destruct (Z.odd level) eqn:E.
-  - destruct level as [|p|p]; try discriminate; reflexivity.
-  - reflexivity.
+  rewrite Zrem_odd. destruct (Z.odd level) eqn:E; [left | right; split; reflexivity].
+  split; [reflexivity|]. destruct level as [|p|p]; try discriminate; [left | right]; reflexivity.
 Qed.
 
 Lemma floor_half q level : q == inject_Z level / (2 # 1) -> Qfloor q = (level / 2)%Z.
@@ -59,18 +60,17 @@ Proof.
   intros panicv powf s level ro eb Hp He.
   unfold gen_Linear_spacingAtLevel. rewrite tie_Linear_ebase, He.
   destruct s as [mn mx base cl]. lproj. cbv zeta.
-  unfold go_srem. rewrite odd_rem. unfold go_floor, go_i2f.
+  unfold go_srem, go_floor, go_i2f.
   repeat match goal with |- context [powf _ (inject_Z (Qfloor ?q))] =>
     rewrite (floor_half q level) by (first [reflexivity | field]) end.
   destruct (lin_ebase_ge base eb He) as (Heb & _ & _).
   pose proof (Hp eb (level / 2)%Z ltac:(lia)) as Hpw.
   set (pw := powf (inject_Z eb) (inject_Z (level / 2))) in *.
-  assert (Hsp : (if Z.odd level && (base =? 0)%Z then pw * (5 # 1) else pw) == lin_spacing base eb level).
-  { unfold lin_spacing. cbv zeta. destruct (Z.odd level && (base =? 0)%Z); rewrite Hpw; reflexivity. }
-  set (spg := if Z.odd level && (base =? 0)%Z then pw * (5 # 1) else pw) in *.
-  unfold lin_first_last, go_ceil. cbv zeta. rewrite !qfl_floor, !qcl_ceiling. fold slack_factor.
-  destruct ro; (split; [exact Hsp|]); split; f_equal;
-    first [apply Qfloor_comp | apply Qceiling_comp]; rewrite Hsp; reflexivity.
+  unfold lin_first_last, lin_spacing, go_ceil. cbv zeta. rewrite !qfl_floor, !qcl_ceiling.
+  destruct (rem2_cases level) as [[Ho [Hr|Hr]]|[Ho Hr]]; rewrite Ho, ?Hr; cbn [Z.eqb Pos.eqb andb orb negb];
+    destruct (base =? 0)%Z; cbn [andb orb negb];
+    destruct ro; (split; [rewrite Hpw; reflexivity|]); split; f_equal;
+    first [apply Qfloor_comp | apply Qceiling_comp]; rewrite Hpw; reflexivity.
 Qed.
 
 
